@@ -167,7 +167,7 @@ def run(chk):
             g = float(got[j])
             if not close(mv, g, 1e-12):
                 chk.disagree("gh_corrected", inp, mv, g)
-            if m == 0.0 and g != r:
+            if m == 0.0 and not close(g, r, 1e-14):
                 chk.fail("zero-mean cycles unchanged", inp, r, g)
             if not close(g, r * uts / (uts - m), 1e-12):
                 chk.fail("effective range == range*uts/(uts-mean)", inp, r * uts / (uts - m), g)
